@@ -31,15 +31,19 @@ func Equal(a, b any) bool { //nolint: gocyclo
 		}
 		return true
 	case reflect.Map:
-		// maps with the same keys and equal values (whatever Go types hold the values)
-		if ra.Type().Key() != rb.Type().Key() {
-			return equalInterfaces(a, b)
-		}
+		// maps with the same keys and equal values (whatever Go types hold the keys and the values)
 		if ra.Len() != rb.Len() {
 			return false
 		}
 		for _, k := range ra.MapKeys() {
-			vb := rb.MapIndex(k)
+			kb := k
+			if kb.Kind() == reflect.Interface {
+				kb = kb.Elem() // the key itself, for a map[any]T
+			}
+			if !kb.IsValid() || !kb.Type().AssignableTo(rb.Type().Key()) {
+				return false
+			}
+			vb := rb.MapIndex(kb)
 			if !vb.IsValid() || !Equal(ra.MapIndex(k).Interface(), vb.Interface()) {
 				return false
 			}
